@@ -5,7 +5,9 @@ import Sqfs.Model.EncMeta
 import Sqfs.Model.EncXattr
 import Sqfs.Model.IdTable
 import Sqfs.Model.EncTree
+import Sqfs.Spec.EncTreeSpec
 import Sqfs.Spec.PackSpec
+import Sqfs.Model.Path
 /-!
 `sqfsmodel c01 [units]` — line protocol of the C01 unit-level correspondence; the same lines go to
 `harness/h_c01u.c` (the real library) and the two outputs must be identical.
@@ -134,6 +136,12 @@ def opInode (toks : List String) : String :=
 def opConv (f : Inode → Inode) (toks : List String) : String :=
   match parseInode toks with
   | some (i, []) => showInode (f i)
+  | _ => "bad-op"
+
+/-- `setsz`/`setst`: `sqfs_inode_set_file_size` / `sqfs_inode_set_file_block_start` -/
+def opConvOpt (f : Inode → Option Inode) (toks : List String) : String :=
+  match parseInode toks with
+  | some (i, []) => match f i with | some i' => showInode i' | none => s!"err {errNotFile}"
   | _ => "bad-op"
 
 open Sqfs.DirWriter in
@@ -303,15 +311,16 @@ def opXattr (toks : List String) : String :=
       | .ok (w, idx) =>
         if w.pairs.isEmpty ∨ w.blocks.isEmpty then s!"rec 0 {showNats idx} none"           -- flush: NO_XATTRS
         else
-          let (kv, descs) := flushKv rawRef w
-          let ids := encDescs descs
+          let fl := xattrFlush rawCmp rawRef w
+          let kv := fl.kv
+          let ids := encDescs fl.descs
           let count := locCount w.blocks.length
           let cost := metaBlockSize + 2
-          let stores := locStores (if fix = "1" then some count else none)
-            (fun k => (k * sizeofXattrId) / metaBlockSize * cost) w.blocks.length
-          let oob := stores.filter (fun s => s.1 ≥ count)
-          let locs := applyStores count stores
-          let rdr : XReader := { kv := kv, ids := ids, numIds := w.blocks.length, posOf := fun r => rawPos r }
+          -- the code before /repo 6ae20a5 (`fix` = 0) stored beyond the array: counted, for the replay of D9
+          let oob := (locStores (if fix = "1" then some count else none)
+            (fun k => (k * sizeofXattrId) / metaBlockSize * cost) w.blocks.length).filter (fun s => s.1 ≥ count)
+          let locs := fl.locs
+          let rdr : XReader := fl.reader rawUnc (fun r => rawPos r)
           let distinct := idx.eraseDups
           let rd := distinct.map (fun i => s!"{i}:" ++ showStatus (readSet rdr i) showSet)
           s!"rec 0 {showNats idx} n={w.blocks.length} kv={toHexTok kv} ids={toHexTok ids} locs={showNats locs} " ++
@@ -330,15 +339,15 @@ def opXsets (toks : List String) : String :=
       match recordAll {} sets with
       | .error e => s!"rec {e}"
       | .ok (w, idx) =>
-        let (kv, descs) := flushKv rawRef w
-        let ids := encDescs descs
+        let fl := xattrFlush rawCmp rawRef w
+        let kv := fl.kv
+        let ids := encDescs fl.descs
         let count := locCount w.blocks.length
         let cost := metaBlockSize + 2
-        let stores := locStores (if fix = "1" then some count else none)
-          (fun k => (k * sizeofXattrId) / metaBlockSize * cost) w.blocks.length
-        let oob := stores.filter (fun s => s.1 ≥ count)
-        let locs := applyStores count stores
-        let rdr : XReader := { kv := kv, ids := ids, numIds := w.blocks.length, posOf := fun r => rawPos r }
+        let oob := (locStores (if fix = "1" then some count else none)
+          (fun k => (k * sizeofXattrId) / metaBlockSize * cost) w.blocks.length).filter (fun s => s.1 ≥ count)
+        let locs := fl.locs
+        let rdr : XReader := fl.reader rawUnc (fun r => rawPos r)
         let good := idx.zip sets |>.all (fun (i, s) => match readSet rdr i with | .ok l => l == s | .error _ => false)
         s!"rec 0 n={w.blocks.length} kvlen={kv.length} idslen={ids.length} locs={showNats locs} oob={oob.length} same={good}"
     | _, _ => "bad-op"
@@ -394,14 +403,18 @@ def addSpecs (d : Defaults) : List TreeSpec → Nat → TNode → List Path → 
       let hard := s.t == 'h'
       let ent : Ent := { rel := s.path, path := s.path, mode := mode, uid := s.uid, gid := s.gid, mtime := s.mtime, dev := 0, ino := 0,
                          rdev := (if s.t == 'b' || s.t == 'c' then (nat? s.extra).getD 0 else 0), mount := false, hard := hard }
+      -- `mknode` (fstree.c:120-126) runs `canonicalize_name` over a hard link's target: "." components and doubled
+      -- slashes disappear (a target "." becomes the root), a ".." component makes the call fail with EINVAL
+      let canonFails := s.t == 'h' && (match fromHex s.extra with | some b => (Sqfs.Path.canonicalize b).isNone | none => false)
       let extra : Option Extra :=
-        if s.t == 'h' then (fromHex s.extra).map (fun b => Extra.link (splitPath b) none)
+        if s.t == 'h' then (fromHex s.extra).map (fun b => Extra.link (splitPath ((Sqfs.Path.canonicalize b).getD b)) none)
         else if s.t == 'l' then (fromHex s.extra).map Extra.str
         else if s.t == 'f' then some (Extra.str [])
         else some Extra.none
       match extra with
       | none => .error "bad-op"
       | some ex =>
+        if canonFails then .error s!"add {i} failed" else
         match addPath d ent ex s.path t with
         | none => .error s!"add {i} failed"
         | some t' => addSpecs d rest (i + 1) t' (if hard then s.path :: l else l)
@@ -409,7 +422,7 @@ def addSpecs (d : Defaults) : List TreeSpec → Nat → TNode → List Path → 
 partial def showRNode : RNode → String
   | .mk name i cs => s!"( {toHexTok name} {showInode i}" ++ String.join (cs.map (fun c => " " ++ showRNode c)) ++ " )"
 
-def opTree (toks : List String) : String :=
+def opTree (preload : Nat) (toks : List String) : String :=
   match toks.mapM parseSpec with
   | none => "bad-op"
   | some specs =>
@@ -427,7 +440,12 @@ def opTree (toks : List String) : String :=
           | none => .file ⟨0, 0, 0, 0, 0⟩ 0 0 0 0 []
         if specs.any (fun s => s.t == 'f' && (fileInodeOfSpec s.extra).isNone) then "bad-op"
         else
-        match serializeTree r ⟨xattrOf, fileInode⟩ with
+        let ser : Except Status TreeOut :=
+          if preload = 0 then serializeTree r ⟨xattrOf, fileInode⟩
+          else match serializeGo r.tree r.inodes ⟨xattrOf, fileInode⟩ r.inodes { ids := (List.range preload).map (· + 1000) } [] with
+            | .error e => .error e
+            | .ok (st, refs) => .ok ⟨st, refs, lookupRef refs [], r.inodes.length⟩
+        match ser with
         | .error e => s!"ret {e} n={r.inodes.length} root=0"
         | .ok out =>
           let walk := match readTree 4096 out (out.inodeCount * 4 + 8) with
@@ -435,6 +453,38 @@ def opTree (toks : List String) : String :=
             | .error e => s!" end {e}"
           s!"ret 0 n={out.inodeCount} root={out.rootRef} inodes={toHexTok out.st.inodes} dirs={toHexTok out.st.dirs} " ++
             s!"ids={showNats out.st.ids} walk" ++ walk
+
+/-- `treechk <specs>`: the hypotheses of `Sqfs.C01.parse_serialize` evaluated for the tree `tree <specs>` serializes
+(`rep`), and its conclusion (`norm`: `normalise` equals the resolved walk).  Model only. -/
+def opTreeChk (toks : List String) : String :=
+  match toks.mapM parseSpec with
+  | none => "bad-op"
+  | some specs =>
+    let d : Defaults := { uid := 0, gid := 0, mtime := 0, mode := 0o755 }
+    match addSpecs d specs 0 (initRoot d) [] with
+    | .error _ => "skip"
+    | .ok (t, links) =>
+      match postProcess t links with
+      | none => "skip"
+      | some r =>
+        let xattrOf (p : Path) : Nat := match specs.find? (fun s => s.path == p && s.t != 'h') with | some s => s.xattr | none => NONE32
+        let fileInode (p : Path) : Inode :=
+          match specs.find? (fun s => s.path == p && s.t == 'f') with
+          | some s => (fileInodeOfSpec s.extra).getD (.file ⟨0, 0, 0, 0, 0⟩ 0 0 0 0 [])
+          | none => .file ⟨0, 0, 0, 0, 0⟩ 0 0 0 0 []
+        if specs.any (fun s => s.t == 'f' && (fileInodeOfSpec s.extra).isNone) then "skip"
+        else
+        let x : TreeExtra := ⟨xattrOf, fileInode⟩
+        match serializeTree r x with
+        | .error _ => s!"skip order={orderOkB r}"
+        | .ok out =>
+          let rep := decide (Representable 4096 r x out)
+          let fuel := out.inodeCount * 4 + 8
+          let norm := match normalise r x fuel, readTree 4096 out fuel with
+            | some v, .ok rn => if reprStr (rn.resolve out.st.ids) == reprStr v then "same" else "diff"
+            | none, _ => "nofuel"
+            | some _, .error e => s!"walk{e}"
+          s!"rep={rep} order={orderOkB r} norm={norm}"
 
 end Tree
 
@@ -494,7 +544,11 @@ def handle (line : String) : String :=
   | "idlimit" :: r => opIdlimit r
   | "xattr" :: r => opXattr r
   | "xsets" :: r => opXsets r
-  | "tree" :: r => opTree r
+  | "tree" :: r => opTree 0 r
+  | "treeids" :: n0 :: r => match nat? n0 with | some n0 => opTree n0 r | none => "bad-op"
+  | "treechk" :: r => opTreeChk r
+  | "setsz" :: v :: r => match nat? v with | some v => opConvOpt (setFileSize v) r | none => "bad-op"
+  | "setst" :: v :: r => match nat? v with | some v => opConvOpt (setFileBlockStart v) r | none => "bad-op"
   | "export" :: r => opExport r
   | "super" :: r => opSuper r
   | _ => "bad-op"
